@@ -2,6 +2,7 @@ package props
 
 import (
 	"fmt"
+	"go/constant"
 	"go/token"
 	"sort"
 	"strings"
@@ -286,6 +287,7 @@ func checkC19(r *core.Run) {
 		}
 		r.Check(len(starts) > 0 && !bad, "R-C19-order", "change-recorded/"+n, p.Pos(fn.Pos()), "every way out after changing the index queues the key or marks the volatile store as modified", n+" can return after changing the in-memory index without queueing the key or marking the store modified: in volatile mode Close() then writes nothing and the change is lost")
 	}
+	c19DirtyMarkKept(r, p, "R-C19-order")
 	// data-file sequence: a new session writes to file number (highest sequence referenced by the index)+1; the
 	// highest sequence is raised for every record put into the index, new key or overwrite alike (otherwise a
 	// later session re-creates, i.e. truncates, a data file that live records still point into)
@@ -870,4 +872,38 @@ func c19SnapshotChoice(r *core.Run, p *core.Program, ln *ssa.Function) {
 	badC, badN = dedupStrings(badC), dedupStrings(badN)
 	r.Check(len(badC) == 0 && nret >= 3, rule, "chosen-snapshot", p.Pos(ln.Pos()), fmt.Sprintf("%d paths: the remembered sequence and file index belong to the returned file, the other file is the one removed", nret), strings.Join(badC, "; "))
 	r.Check(len(badN) == 0 && nret >= 3, rule, "newer-snapshot-wins", p.Pos(ln.Pos()), "a single valid file is used, of two the one with the higher sequence (wrap-around compare), nothing only when neither is valid", strings.Join(badN, "; "))
+}
+
+// c19DirtyMarkKept: in volatile mode NoSyncMode doubles as the "modified since opening" mark that Close looks
+// at before it writes the store out.  The mark is cleared (a store of false) only on paths where the store is
+// known not to be volatile; cleared elsewhere, a following Close writes nothing and the session's changes
+// are lost.
+func c19DirtyMarkKept(r *core.Run, p *core.Program, rule string) {
+	n := 0
+	for _, fn := range p.ModuleFuncs() {
+		if fn.Pkg == nil || !strings.HasSuffix(fn.Pkg.Pkg.Path(), "lib/others/qdb") {
+			continue
+		}
+		an.Instrs(fn, func(i ssa.Instruction) {
+			st, ok := i.(*ssa.Store)
+			if !ok {
+				return
+			}
+			if f, _ := an.FieldOf(st.Addr); f != "lib/others/qdb.DB.NoSyncMode" {
+				return
+			}
+			if c, isC := st.Val.(*ssa.Const); !isC || c.Value == nil || c.Value.Kind() != constant.Bool || constant.BoolVal(c.Value) {
+				return
+			}
+			n++
+			nonVolatile := false
+			for _, dc := range an.DomConds(st.Block()) {
+				if f, _ := an.FieldOf(loadAddr(dc.If.Cond)); f == "lib/others/qdb.DB.VolatileMode" && !dc.True {
+					nonVolatile = true
+				}
+			}
+			r.Check(nonVolatile, rule, "volatile-dirty-mark-kept/"+core.FuncName(fn), p.Pos(st.Pos()), "cleared only for a non-volatile store", "the 'modified' mark of a volatile store is cleared without the store being written out: a following Close() writes nothing and the changes of the session are lost")
+		})
+	}
+	r.Check(n >= 1, rule, "volatile-dirty-mark-kept/sites", "-", fmt.Sprintf("%d places clear the mark", n), "no place that clears NoSyncMode found")
 }
